@@ -344,3 +344,10 @@ def examples(ctx, fl, rows_per_example=None):
             engine.process()
         except Exception:
             pass
+
+
+def passive(ctx, fl, probe):
+    """attach this property's always-on monitor to a foreign workload (the repository's test-suite, see vf/pytest_plugin.py)"""
+    mon = PipelineMonitor(ctx, fl)
+    mon.install(probe)
+    return None
